@@ -58,6 +58,8 @@ pub fn st_of(s: &State) -> St {
         State::DcsIgnore => St::DcsIgnore,
         State::OscString => St::OscString,
         State::SosPmApcString => St::SosPmApcString,
+        #[allow(unreachable_patterns)]
+        _ => St::Ground,
     }
 }
 
@@ -81,6 +83,8 @@ pub enum RSgr {
     NoFg,
     Bg(MColor),
     NoBg,
+    /// an operation this harness does not know (the library was extended)
+    Unknown,
 }
 
 /// Mirror of `avt::parser::Function` (variant by variant) in reference vocabulary.
@@ -139,6 +143,7 @@ pub enum RF {
     Vpa(u16),
     Vpr(u16),
     XtResize(u16, u16),
+    Unknown(String),
 }
 
 fn dec_num(m: &DecMode) -> u16 {
@@ -150,6 +155,9 @@ fn dec_num(m: &DecMode) -> u16 {
         DecMode::AltScreenBuffer => 1047,
         DecMode::SaveCursor => 1048,
         DecMode::SaveCursorAltScreenBuffer => 1049,
+        // a mode this harness does not know (the library was extended): keep going
+        #[allow(unreachable_patterns)]
+        _ => 0,
     }
 }
 
@@ -157,6 +165,8 @@ fn ansi_num(m: &AnsiMode) -> u16 {
     match m {
         AnsiMode::Insert => 4,
         AnsiMode::NewLine => 20,
+        #[allow(unreachable_patterns)]
+        _ => 0,
     }
 }
 
@@ -181,6 +191,8 @@ pub fn rsgr_of(op: &SgrOp) -> RSgr {
         ResetForegroundColor => RSgr::NoFg,
         SetBackgroundColor(c) => RSgr::Bg(crate::obs::conv_color(*c)),
         ResetBackgroundColor => RSgr::NoBg,
+        #[allow(unreachable_patterns)]
+        _ => RSgr::Unknown,
     }
 }
 
@@ -250,6 +262,9 @@ pub fn rf_of(f: &Function) -> RF {
         Vpa(n) => RF::Vpa(*n),
         Vpr(n) => RF::Vpr(*n),
         Xtwinops(XtwinopsOp::Resize(c, r)) => RF::XtResize(*c, *r),
+        // a function / scope this harness does not know (the library was extended)
+        #[allow(unreachable_patterns)]
+        other => RF::Unknown(format!("{:?}", other)),
     }
 }
 
@@ -893,6 +908,7 @@ pub fn render(rf: &RF) -> String {
                     RSgr::NoFg => "39".into(),
                     RSgr::Bg(c) => col(40, c),
                     RSgr::NoBg => "49".into(),
+                    RSgr::Unknown => "0".into(),
                 };
                 s.push_str(&format!("\x1b[{}m", p));
             }
@@ -907,5 +923,6 @@ pub fn render(rf: &RF) -> String {
         RF::Vpa(n) => format!("\x1b[{}d", n),
         RF::Vpr(n) => format!("\x1b[{}e", n),
         RF::XtResize(c, r) => format!("\x1b[8;{};{}t", r, c),
+        RF::Unknown(_) => String::new(),
     }
 }
